@@ -134,3 +134,50 @@ pub fn expected_sig(params: &[Ty], result: Option<&Ty>, ctx: Context, enc: Enc) 
     let r = result.map(|t| enc_ty(t, enc));
     flatten_functype(CanonOpts { async_: false, callback: false }, &ps, r.as_ref(), ctx, Width::W8)
 }
+
+/// The "split interfaces" world: heap-owning base types live in interface `types`, which the world
+/// only *imports*; interface `i` (imported and exported, so that the echo has its twin) pulls them
+/// in with `use` and builds its own compound types and functions from them. The export side of `i`
+/// then refers to types whose C typedefs and free helpers belong to the import side.
+/// Returns the functions' types in declaration order and the WIT text.
+pub fn split_world() -> (Vec<Ty>, String) {
+    let s = || Ty::String;
+    let b = |t: &Ty| Box::new(t.clone());
+    let bases: Vec<(Ty, String)> = vec![
+        (Ty::Record(vec![s(), Ty::List(Box::new(s()))]), "record b0 { name: string, tags: list<string> }".into()),
+        (Ty::List(Box::new(s())), "type b1 = list<string>;".into()),
+        (Ty::Option(Box::new(s())), "type b2 = option<string>;".into()),
+        (Ty::Variant(vec![None, Some(s())]), "variant b3 { none, named(string) }".into()),
+    ];
+    let mut types_iface = String::from("interface types {\n");
+    let mut defs = String::new();
+    let mut funcs = String::new();
+    let mut tys = Vec::new();
+    let mut k = 0;
+    let mut add = |funcs: &mut String, tys: &mut Vec<Ty>, t: Ty, expr: String| {
+        funcs.push_str(&format!("  fx{k}: func(p0: {expr}) -> {expr};\n"));
+        tys.push(t);
+        k += 1;
+    };
+    for (j, (bt, def)) in bases.iter().enumerate() {
+        types_iface.push_str(&format!("  {def}\n"));
+        let n = format!("b{j}");
+        defs.push_str(&format!("  record r{j} {{ lead: {n}, id: u64 }}\n"));
+        defs.push_str(&format!("  type a{j} = {n};\n"));
+        defs.push_str(&format!("  record t{j} {{ lead: {n}, members: list<{n}> }}\n"));
+        defs.push_str(&format!("  variant v{j} {{ one({n}), num(u64) }}\n"));
+        add(&mut funcs, &mut tys, bt.clone(), n.clone());
+        add(&mut funcs, &mut tys, Ty::Record(vec![bt.clone(), Ty::U64]), format!("r{j}"));
+        add(&mut funcs, &mut tys, Ty::List(b(bt)), format!("list<{n}>"));
+        add(&mut funcs, &mut tys, Ty::Option(b(bt)), format!("option<{n}>"));
+        add(&mut funcs, &mut tys, bt.clone(), format!("a{j}"));
+        add(&mut funcs, &mut tys, Ty::Record(vec![bt.clone(), Ty::List(b(bt))]), format!("t{j}"));
+        add(&mut funcs, &mut tys, Ty::Variant(vec![Some(bt.clone()), Some(Ty::U64)]), format!("v{j}"));
+        add(&mut funcs, &mut tys, Ty::Tuple(vec![Ty::U8, bt.clone()]), format!("tuple<u8, {n}>"));
+    }
+    types_iface.push_str("}\n");
+    let text = format!(
+        "package t:t;\n\n{types_iface}\ninterface i {{\n  use types.{{b0, b1, b2, b3}};\n{defs}{funcs}}}\n\nworld w {{\n  import types;\n  import i;\n  export i;\n}}\n"
+    );
+    (tys, text)
+}
